@@ -67,6 +67,8 @@ struct CaseResult {
   uint32_t case_mask = 0;
 };
 
+struct OpTrace { bool applicable = false; CallResult got; int forbid_eid = -1; int forbid_nested_eid = -1; int created_eid = -1; };
+
 struct ParsedLoc { size_t pos; std::string file; unsigned long line; };
 
 class Interp {
@@ -75,6 +77,7 @@ class Interp {
   CaseResult res;
   bool stop = false;
   size_t cur = 0;
+  std::vector<OpTrace> optrace;   // one entry per operation of the case (not the teardown)
   // history invariant for C05 (independent of the model's bookkeeping): registration order per sequence object
   std::map<std::pair<int, int>, std::vector<int>> registered;  // (seq slot, gen) -> eids in registration order
   std::set<int> passed;                                         // eids that a later-registered participant passed
@@ -379,6 +382,7 @@ class Interp {
     (void)before_applicable;
     if (!m.applicable(o)) { res.noops++; return; }
     res.ops_run++;
+    if (cur < optrace.size()) optrace[cur].applicable = true;
     int eid0 = m.next_eid;
     // bookkeeping for labels, before the step
     bool call_after_release = false, call_on_moved = false;
@@ -429,6 +433,11 @@ class Interp {
     if (o.kind == O_CREATE && cres != x.create_res)
       mismatch(CAT_CREATE, "creation result " + std::to_string(cres) + " want " + std::to_string(x.create_res) + " (0 ok, 1 logic_error)");
     if (o.kind == O_SWAP_REPORTER && !swap_good) mismatch(CAT_SWAP, "set_reporter did not return the previously installed reporter(s)");
+    if (cur < optrace.size()) {
+      optrace[cur].got = got;
+      if (o.kind == O_CREATE && cres == 0) optrace[cur].created_eid = eid0;
+      for (auto& xr : x.reports) if (xr.kind == K_FORBIDDEN) { if (x.nested.empty()) optrace[cur].forbid_eid = xr.eid; else optrace[cur].forbid_nested_eid = xr.eid; }
+    }
     if (o.kind == O_CALL) {
       res.calls++;
       if (!(got == x.outcome)) mismatch(CAT_OUTCOME, "call outcome " + show(got) + " model " + show(x.outcome));
@@ -619,6 +628,7 @@ class Interp {
     res.case_mask = compute_case_mask(ops);
     stop = false;
     cur = 0;
+    optrace.assign(ops.size(), OpTrace());
     for (size_t i = 0; i < ops.size(); ++i) {
       cur = i;
       if (stop) {
